@@ -9,7 +9,7 @@ inductive AutoClear where | none | auto | manual | maxLength
   deriving Repr, DecidableEq, Inhabited
 
 inductive Proc where
-  | speller | selector | navigator | expressEditor | fluidEditor | other
+  | speller | selector | navigator | expressEditor | fluidEditor | other | punctuator
   deriving Repr, DecidableEq, Inhabited
 
 structure Env where
@@ -25,6 +25,8 @@ structure Env where
   useSpace : Bool := false
   autoClear : AutoClear := .none
   processors : List Proc := []
+  /-- the `punctuator:` section (default: no punctuation defined) -/
+  punct : PunctCfg := {}
   /-- shape formatter applied to committed text (identity when `full_shape` is off) -/
   format : Bytes → Bytes := id
   /-- ConcreteEngine::Compose as a function of (input, caret, old composition) -/
